@@ -693,8 +693,15 @@ class WaveShareNmea2000Gateway(AsyncIOClient):
             start = self._buffer.find(b"\xaa\x55")
 
             if start == -1:
-                # If start marker not found, wait for more data
+                # If start marker not found, wait for more data. Nothing in the buffer can become a
+                # packet any more, except a trailing 0xaa that may be the first half of the marker
+                keep = 1 if self._buffer.endswith(b"\xaa") else 0
+                del self._buffer[:len(self._buffer) - keep]
                 break
+            if start > 0:
+                # noise in front of the packet start is never needed again
+                del self._buffer[:start]
+                start = 0
             if start + 20 > len(self._buffer):
                 # Not enough data for a full packet yet
                 break
